@@ -164,7 +164,50 @@ Next_Insecure ==
   \/ \E p \in {[k |-> "name", n |-> "a"], [k |-> "all"], [k |-> "path", r |-> "V1", d |-> "d", n |-> "a"]} : Rm(p) /\ Emit
 
 \* trash-list --trash-dirs / --volumes on every state of $topdir/.Trash
-Next_ListDirs == ListDirs /\ Emit
+Next_ListDirs == ListDirs(FALSE) /\ Emit
+
+-----------------------------------------------------------------------------
+(* --all-users: trash directories of two users on every state of $topdir/.Trash; what --all-users lists, reports and   *)
+(* purges, and what the same commands WITHOUT --all-users (and trash-restore, trash-rm, trash-put) leave alone          *)
+
+CfgsAll ==
+  {[mounted |-> m, top |-> TopOn("V1", x), altfile |-> {}, xdg |-> xd, home |-> h, hlink |-> "none", kind |-> KindsFDLX] :
+      m \in {{"R", "V1"}, {"R", "V1", "V2"}}, x \in TopStates \ {"file"}, xd \in {"unset", "empty"}, h \in {"set"}}
+\* ($XDG_DATA_HOME set, or $HOME unset: the environment and the password database then name different home trash directories
+\* for the invoking user; Trash.tla says which one the code takes (AllHome), no property does, so it is not generated)
+Init_AllUsers ==
+  /\ cfg \in CfgsAll
+  /\ dirs = BaseDirs
+  /\ live = {[r |-> "V1", d |-> "top", n |-> "b", o |-> 1], [r |-> "R", d |-> "d", n |-> "b", o |-> 2]}
+  /\ LET hasTop == cfg.top["V1"] # "absent"
+         lh     == cfg.xdg = "set" IN
+     /\ tex = {"home", "ohome", "t2:V1", "o2:V1", "o2:R", "c:V1"} \cup (IF hasTop THEN {"t1:V1", "o1:V1"} ELSE {})
+                 \cup (IF lh THEN {"lhome"} ELSE {})
+     /\ \E dd \in {1, 6} :
+          items = {i \in {[t |-> "home",  o |-> 5,  r |-> "R",  d |-> "d",   n |-> "a", date |-> 1],
+                         [t |-> "lhome", o |-> 6,  r |-> "R",  d |-> "de",  n |-> "a", date |-> dd],
+                         [t |-> "ohome", o |-> 7,  r |-> "R",  d |-> "top", n |-> "a", date |-> dd],
+                         [t |-> "t1:V1", o |-> 8,  r |-> "V1", d |-> "d",   n |-> "a", date |-> 1],
+                         [t |-> "o1:V1", o |-> 9,  r |-> "V1", d |-> "d",   n |-> "b", date |-> dd],
+                         [t |-> "t2:V1", o |-> 10, r |-> "V1", d |-> "top", n |-> "a", date |-> 6],
+                         [t |-> "o2:V1", o |-> 11, r |-> "V1", d |-> "de",  n |-> "a", date |-> 1],
+                         [t |-> "o2:R",  o |-> 12, r |-> "R",  d |-> "de",  n |-> "b", date |-> dd],
+                         [t |-> "c:V1",  o |-> 13, r |-> "V1", d |-> "de",  n |-> "b", date |-> 1]} : i.t \in tex}
+     /\ orph \in {{}, {x \in {[t |-> "o1:V1", o |-> 14], [t |-> "ohome", o |-> 15]} : x.t \in tex}}
+     /\ strays \in {{}, {[t |-> "o2:V1", id |-> 1, r |-> "V1", d |-> "d", n |-> "b", date |-> 1]}}
+  /\ junk = {}
+  /\ clock = 10 /\ purged = {} /\ out = [cmd |-> "init"]
+Next_AllUsers ==
+  \/ \E td \in {"all", "none"} : List(td) /\ Emit
+  \/ \E all \in BOOLEAN : ListDirs(all) /\ Emit
+  \/ \E days \in {-1, 0, 2}, dry \in BOOLEAN, td \in {"all", "none"}, consent \in {"auto", "no"} :
+        \* (the dry run over an info without payload is the known deviation recorded under C14: not generated here)
+        (consent = "no" => ~dry /\ days = -1) /\ (dry => strays = {}) /\ Empty([days |-> days, dry |-> dry, consent |-> consent, td |-> td]) /\ Emit
+  \/ \E p \in {[k |-> "all"], [k |-> "name", n |-> "a"]} : Rm(p) /\ Emit
+  \/ \E sort \in {"date"}, reply \in {[k |-> "idx", idx |-> <<0>>], [k |-> "idx", idx |-> <<3>>], [k |-> "eof"]} :
+        Restore([k |-> "root"], "none", sort, reply, FALSE) /\ Emit
+  \/ \E a \in {[class |-> "entry", r |-> "V1", d |-> "top", n |-> "b"], [class |-> "entry", r |-> "R", d |-> "d", n |-> "b"]} :
+        Put(<<a>>, [force |-> FALSE, inter |-> "off", td |-> "none", hf |-> FALSE, hfenv |-> FALSE]) /\ Emit
 
 -----------------------------------------------------------------------------
 (* C10 / C14: trash-empty around the DAYS threshold; dry run; consent                *)
